@@ -7,7 +7,10 @@ package props
 // OOM or hang of the worker is an outcome of the op that was running, confirmed by re-running the
 // history alone. Oracle (from the property statement only): after any history,
 // Decode(Encode(x)) == x, no error, no panic, no hang, for every dst; slices returned earlier
-// are not modified; independent decoders agree.
+// are not modified; independent decoders agree. Ownership: the result of a call lives in its dst
+// or in a new buffer — never in src ("result-aliases-src": the caller overwrites src after the
+// call and the result must not change); the buffers a caller got back have separate owners, any
+// ONE of them may be recycled as a later dst (`lastenc` / `lastdec`) while the others are kept.
 // L2 (c20_pool.go): the real Compressor/Decompressor pools with instrumented toy streams vs the
 // Lean pool model; the lz4 grow-and-retry loop vs the Lean mirror (final buffer size).
 
@@ -37,14 +40,16 @@ func init() { RegisterSub("C20", "codecs", RunC20) }
 var c20Codecs = []string{"snappy", "gzip", "brotli", "zstd", "lz4", "uncompressed"}
 
 // dst shapes for Decode (sizes relative to the decoded length and to len(src)) ...
+// `lastenc` / `lastdec`: the caller recycles ONE buffer it got from the codec (its most recent
+// Encode / Decode output) and keeps the rest — the two halves of a round trip have separate owners
 var c20DstKinds = []string{"nil", "zero", "smallcap", "smalllen", "exactcap", "exactlen", "exactm1", "exactp1", "large", "largelen",
-	"srccap", "srclen", "srcm1", "srcp1", "srcp15", "srchalf", "prev"}
+	"srccap", "srclen", "srcm1", "srcp1", "srcp15", "srchalf", "lastenc", "lastdec", "prev"}
 
 // ... and for Encode: additionally around the worst-case bounds of the block formats and around
 // the size of the output itself ("prev" stays last: some generators exclude it)
 var c20EncDstKinds = []string{"nil", "zero", "smallcap", "smalllen", "exactcap", "exactlen", "exactm1", "exactp1", "large", "largelen",
 	"srccap", "srclen", "srcm1", "srcp1", "srcp15", "srchalf", "lz4boundm1", "lz4bound", "snapboundm1", "snapbound",
-	"outm1", "outcap", "outp1", "prev"}
+	"outm1", "outcap", "outp1", "lastenc", "lastdec", "prev"}
 var c20InputKinds = []string{"rand", "zero", "text", "alpha4", "runs"}
 var c20BadKinds = []string{"truncate", "trailing", "flip", "garbage", "empty"}
 
@@ -596,6 +601,32 @@ func RunC20(ctx *core.Ctx) {
 						ops = append(ops, c20Op{K: "bad", In: in, EDst: "nil", DDst: dd, Bad: c20Corrupt{Kind: "empty"}})
 					}
 					add(c20Scenario{Codec: codec, Level: 0, Ops: ops, TimeoutMs: 3000})
+				}
+			}
+		}
+	}
+	// (r) recycling: a round trip with every dst shape, then the caller recycles ONE of the two
+	// buffers it got back (the compressed page, or the decoded one) as the dst of the next Encode
+	// or Decode and keeps the other; every codec x every Decode dst shape x a few Encode dst
+	// shapes x {recycled buffer} x {call that gets it}. A result that shares memory with anything
+	// but its own dst shows as "earlier-output-modified" one call later.
+	for _, codec := range c20Codecs {
+		for di, dd := range c20DstKinds[:len(c20DstKinds)-3] {
+			for ri, rec := range []string{"lastenc", "lastdec"} {
+				for wi, where := range []string{"enc", "dec"} {
+					n1 := []int{257, 64, 4097}[(di+ri)%3]
+					n2 := []int{64, 257, 300, 4097}[(di+wi)%4]
+					op1 := c20Op{K: "rt", In: c20Input{Kind: []string{"text", "rand"}[di%2], Len: n1, Seed: int64(di)},
+						EDst: []string{"nil", "zero", "exactcap", "srcp15"}[(di+ri+wi)%4], DDst: dd}
+					op2 := c20Op{K: "rt", In: c20Input{Kind: "alpha4", Len: n2, Seed: int64(50 + di)}, EDst: "nil", DDst: "nil"}
+					if where == "enc" {
+						op2.EDst = rec
+					} else {
+						op2.DDst = rec
+					}
+					op3 := c20Op{K: "rt", In: c20Input{Kind: "runs", Len: n1, Seed: int64(90 + di)}, EDst: "lastdec", DDst: "lastenc"}
+					ctx.Hist("c20.recycle", codec+"/"+rec+"-as-"+where+"-dst")
+					add(c20Scenario{Codec: codec, Level: di + ri, Ops: []c20Op{op1, op2, op3}, TimeoutMs: 3000})
 				}
 			}
 		}
